@@ -59,6 +59,10 @@ inductive Out where
   | died                                 -- the process was killed inside the request
   deriving Repr, DecidableEq
 
+def Out.isReleased : Out → Bool
+  | .released .. => true
+  | _ => false
+
 /-- how the durable write of this request goes -/
 inductive Write where
   | ok              -- all three writes succeed
